@@ -9,6 +9,7 @@ an operation inside the profile is honest.  builtin_flows() adds the builtin typ
 """
 import collections
 import collections.abc
+import itertools
 
 CAPS = ("len", "index", "neg", "slice", "seq", "rev")
 _CLASSES = {}
@@ -19,36 +20,97 @@ def _values(vals):
         yield v
 
 
-def flow_class(proto, caps):
+HINTS = ("absent", "exact", "small", "large", "zero", "notimpl", "typeerr")
+
+
+def hint_fn(hint):
+    """__length_hint__ of an iterator with the given hint surface, as a function of the number of values
+    really remaining (the number operator.length_hint then returns is SliceFlow.tla's HintOf; the harness
+    compares it with the exported hint0)."""
+    if hint == "exact":
+        return lambda rem: rem
+    if hint == "small":
+        return lambda rem: max(rem - 1, 0)
+    if hint == "large":
+        return lambda rem: rem + 2
+    if hint == "zero":
+        return lambda rem: 0
+    if hint == "notimpl":
+        return lambda rem: NotImplemented
+
+    def raising(rem):
+        raise TypeError("no length hint")
+    if hint == "typeerr":
+        return raising
+    raise ValueError(hint)
+
+
+class _LiveIter(object):
+    """An iterator over a LIVE list (values appended before its end was signalled are delivered; the end is
+    final) with a __length_hint__ of the given kind."""
+    __slots__ = ("_v", "_i", "_end", "_hint")
+
+    def __init__(self, vals, hint):
+        self._v, self._i, self._end, self._hint = vals, 0, False, hint_fn(hint)
+
+    def __iter__(self):
+        return self
+
+    def __next__(self):
+        if self._end or self._i >= len(self._v):
+            self._end = True
+            raise StopIteration
+        self._i += 1
+        return self._v[self._i - 1]
+
+    def __length_hint__(self):
+        return self._hint(0 if self._end else len(self._v) - self._i)
+
+
+def flow_class(proto, caps, hint="absent"):
     caps = frozenset(caps)
-    key = (proto, caps)
+    key = (proto, caps, hint)
     if key in _CLASSES:
         return _CLASSES[key]
-    ns = {"__slots__": ("_v", "_i")}
+    ns = {"__slots__": ("_v", "_i", "_end")}
 
     def __init__(self, vals):
         self._v = list(vals)
         self._i = 0
+        self._end = False
     ns["__init__"] = __init__
+    # the underlying list is live: grow() appends to it
+    ns["grow"] = lambda self, val: self._v.append(val)
     if proto == "once":
         def __iter__(self):
             return self
 
         def __next__(self):
-            if self._i >= len(self._v):
+            # the end of an iterator is final, also when its list grows afterwards
+            if self._end or self._i >= len(self._v):
+                self._end = True
                 raise StopIteration
             self._i += 1
             return self._v[self._i - 1]
         ns["__iter__"], ns["__next__"] = __iter__, __next__
+        if hint != "absent":
+            fn = hint_fn(hint)
+            ns["__length_hint__"] = lambda self: fn(0 if self._end else len(self._v) - self._i)
     elif proto == "iter":
-        def __iter__(self):
-            # a fresh iterator (cursor 0) for every request
-            return _values(self._v)
+        if hint == "absent":
+            def __iter__(self):
+                # a fresh iterator (cursor 0) for every request
+                return _values(self._v)
+        else:
+            def __iter__(self):
+                return _LiveIter(self._v, hint)
         ns["__iter__"] = __iter__
     elif proto != "legacy":
         raise ValueError(proto)
     if proto == "legacy" and "index" not in caps:
         raise ValueError("a flow without __iter__ needs __getitem__")
+    if proto == "legacy" and hint != "absent":
+        raise ValueError("the iterator of a flow without __iter__ is the builtin one")
     if "index" in caps:
         with_slice, with_neg = "slice" in caps, "neg" in caps
 
@@ -67,7 +129,10 @@ def flow_class(proto, caps):
         ns["__len__"] = lambda self: len(self._v)
     if "rev" in caps:
         ns["__reversed__"] = lambda self: _values(self._v[::-1])
-    cls = type("Flow_%s_%s" % (proto, "_".join(c for c in CAPS if c in caps) or "bare"), (object,), ns)
+    name = "Flow_%s_%s" % (proto, "_".join(c for c in CAPS if c in caps) or "bare")
+    if hint != "absent":
+        name += "_hint_" + hint
+    cls = type(name, (object,), ns)
     if "seq" in caps:
         collections.abc.Sequence.register(cls)
     _CLASSES[key] = cls
@@ -77,6 +142,15 @@ def flow_class(proto, caps):
 def profile_of(rec):
     """(proto, caps) of an exported record of SliceFlow.tla."""
     return rec["proto"], frozenset(c for c in CAPS if rec[c])
+
+
+def signature(rec):
+    """Readable name of the protocol surface of a record: proto+caps[+hint=...]."""
+    proto, caps = profile_of(rec)
+    sig = "+".join((proto,) + tuple(c for c in CAPS if c in caps))
+    if rec.get("hint", "absent") != "absent":
+        sig += "+hint=" + rec["hint"]
+    return sig
 
 
 ALL = frozenset(CAPS)
@@ -100,15 +174,66 @@ _BUILTINS = {
 }
 
 
-def builtin_flows(proto, caps):
+# builtin iterators whose length hint is the exact number of remaining values
+_BUILTINS_HINT = {
+    ("once", frozenset(), "exact"): (("list_iterator", lambda n: iter(list(range(n)))),
+                                     ("tuple_iterator", lambda n: iter(tuple(range(n)))),
+                                     ("range_iterator", lambda n: iter(range(n))),
+                                     ("deque_iterator", lambda n: iter(collections.deque(range(n)))),
+                                     ("dict_keyiterator", lambda n: iter(dict.fromkeys(range(n)))),
+                                     ("list_reverseiterator", lambda n: reversed(list(range(n - 1, -1, -1)))),
+                                     ("bytes_iterator", lambda n: iter(bytes(range(n))))),
+    ("iter", frozenset(("len",)), "exact"): (("set", lambda n: set(range(n))),),
+}
+
+
+def builtin_flows(proto, caps, hint="absent"):
+    if hint != "absent":
+        return _BUILTINS_HINT.get((proto, frozenset(caps), hint), ())
     return _BUILTINS.get((proto, frozenset(caps)), ())
 
 
-def realisations(proto, caps, n):
+def realisations(proto, caps, n, hint="absent"):
     """[(name, make)]: make() -> a new flow object with n values; list(make()) are the values in flow order."""
-    cls = flow_class(proto, caps)
+    cls = flow_class(proto, caps, hint)
     res = [("synthetic", lambda: cls(range(n)))]
-    for name, make in builtin_flows(proto, caps):
+    for name, make in builtin_flows(proto, caps, hint):
+        res.append((name, (lambda make: lambda: make(n))(make)))
+    return res
+
+
+def _live_list(n, wrap):
+    data = list(range(n))
+    return wrap(data), data.append
+
+
+def _live_bytearray(n, wrap):
+    data = bytearray(range(n))
+    return wrap(data), data.append
+
+
+# builtin LIVE flows: name -> make(n) -> (flow, append)
+_LIVE_BUILTINS = {
+    ("once", frozenset(), "exact"): (("list_iterator", lambda n: _live_list(n, iter)),
+                                     ("bytearray_iterator", lambda n: _live_bytearray(n, iter))),
+    ("once", frozenset(), "absent"): (("generator over a list", lambda n: _live_list(n, lambda d: (v for v in d))),
+                                      ("map over a list", lambda n: _live_list(n, lambda d: map(int, d))),
+                                      ("chain over a list", lambda n: _live_list(n, lambda d: itertools.chain(d)))),
+    # (the iterators these containers hand out have an exact hint of their own)
+    ("iter", ALL, "absent"): (("list", lambda n: _live_list(n, lambda d: d)),
+                              ("bytearray", lambda n: _live_bytearray(n, lambda d: d))),
+}
+
+
+def live_realisations(proto, caps, n, hint="absent"):
+    """[(name, make)]: make() -> (flow over the values 0..n-1, append(value) adding a value to the live flow)."""
+    cls = flow_class(proto, caps, hint)
+
+    def synthetic():
+        obj = cls(range(n))
+        return obj, obj.grow
+    res = [("synthetic", synthetic)]
+    for name, make in _LIVE_BUILTINS.get((proto, frozenset(caps), hint), ()):
         res.append((name, (lambda make: lambda: make(n))(make)))
     return res
 
